@@ -146,13 +146,13 @@ Definition mesh_to_bin (m : mesh) : option bytes :=
 Definition int_of_val (v : val) : option N := match v with VInt n => Some n | _ => None end.
 Definition bytes_of_val (v : val) : option (list N) := match v with VBytes b => Some b | _ => None end.
 Definition ints_of_val (v : val) : option (list N) :=
-  match v with VSeq l => omap int_of_val l | _ => None end.
+  match v with VSeq l => all_some int_of_val l | _ => None end.
 Definition vec_of_val (v : val) : option (list N) :=
-  match v with VArr l => omap int_of_val l | _ => None end.
+  match v with VArr l => all_some int_of_val l | _ => None end.
 Definition vecs_of_val (v : val) : option (list (list N)) :=
-  match v with VSeq l => omap vec_of_val l | _ => None end.
+  match v with VSeq l => all_some vec_of_val l | _ => None end.
 Definition names_of_val (v : val) : option (list (list N)) :=
-  match v with VSeq l => omap bytes_of_val l | _ => None end.
+  match v with VSeq l => all_some bytes_of_val l | _ => None end.
 Definition morph_of_val (v : val) : option mmorph :=
   match v with
   | VEnum 0 (VTuple [VTuple [VInt g; VInt i]; VUnit]) => Some (MWeakIndex g i)
@@ -178,7 +178,7 @@ Definition fields_targeting (src : msource) : list mfield :=
 
 (* `if let Some(x) = data.f { mesh.<set src>(x) }` for each of them: the last present one wins *)
 Definition part {A} (conv : val -> option A) (e : env) (src : msource) : option (option A) :=
-  match omap (opt_field conv e) (fields_targeting src) with
+  match all_some (opt_field conv e) (fields_targeting src) with
   | Some l => Some (last_some l)
   | None => None
   end.
@@ -199,7 +199,7 @@ Definition index_field (e : env) (fw : mfield * bool) : option (option mindices)
   end.
 
 Definition indices_of_env (e : env) : option mindices :=
-  match omap (index_field e) index_fields with
+  match all_some (index_field e) index_fields with
   | Some l => Some (match last_some l with Some i => i | None => INone end)
   | None => None
   end.
